@@ -1291,3 +1291,145 @@ func mappedStatus(pk *packages.Package, e ast.Expr, obj types.Object, depth int)
 	}
 	return false
 }
+
+// ruleKeyedEntriesAgree (C15): the sub-objects a front end files under constant keys of a reply
+// ("root", "leaf" of a claimed task's message) are present under the same conditions on the
+// kernel's outcome in both protocols. A key rendered by one protocol only, or under a stricter
+// condition in one of them (gRPC omits "leaf" when the leaf promise could not be read, HTTP renders
+// it with null data), gives two clients different accounts of the same kernel outcome.
+func ruleKeyedEntriesAgree(c *Ctx) {
+	type entry struct {
+		conds string
+		pos   token.Pos
+	}
+	byKind := map[string]map[string]map[string]entry{} // kind -> proto -> key -> entry
+	for _, pr := range []struct{ proto, pkg string }{{"http", pkgHttp}, {"grpc", pkgGrpc}} {
+		for _, r := range frontEndRequests(c.P, pr.proto, pr.pkg) {
+			if r.Kind == "?" || r.Decl == nil || r.Decl.Body == nil {
+				continue
+			}
+			info := r.Pk.TypesInfo
+			// the variable holding the kernel's response
+			var resObj types.Object
+			ast.Inspect(r.Decl.Body, func(nd ast.Node) bool {
+				if as, ok := nd.(*ast.AssignStmt); ok && len(as.Rhs) == 1 && ast.Unparen(as.Rhs[0]) == ast.Expr(r.Process) && len(as.Lhs) >= 1 {
+					if id, ok := as.Lhs[0].(*ast.Ident); ok {
+						resObj = info.Defs[id]
+						if resObj == nil {
+							resObj = info.Uses[id]
+						}
+					}
+				}
+				return true
+			})
+			if resObj == nil {
+				continue
+			}
+			pe := newProvEnv(r.Pk, r.Decl)
+			pe.sym = map[types.Object]string{resObj: "res"}
+			ast.Inspect(r.Decl.Body, func(nd ast.Node) bool {
+				var keyE, valE ast.Expr
+				var at ast.Node
+				switch x := nd.(type) {
+				case *ast.KeyValueExpr:
+					keyE, valE, at = x.Key, x.Value, x
+				case *ast.AssignStmt:
+					if len(x.Lhs) == 1 && len(x.Rhs) == 1 {
+						if ix, ok := ast.Unparen(x.Lhs[0]).(*ast.IndexExpr); ok {
+							keyE, valE, at = ix.Index, x.Rhs[0], x
+						}
+					}
+				}
+				if keyE == nil {
+					return true
+				}
+				kl, ok := ast.Unparen(keyE).(*ast.BasicLit)
+				if !ok || kl.Kind != token.STRING {
+					return true
+				}
+				v := ast.Unparen(valE)
+				if u, ok := v.(*ast.UnaryExpr); ok && u.Op == token.AND {
+					v = ast.Unparen(u.X)
+				}
+				sub, ok := v.(*ast.CompositeLit)
+				if !ok {
+					return true
+				}
+				// only sub-objects built from the kernel's response
+				fromRes := false
+				ast.Inspect(sub, func(y ast.Node) bool {
+					if id, ok := y.(*ast.Ident); ok && info.Uses[id] == resObj {
+						fromRes = true
+					}
+					return true
+				})
+				if !fromRes {
+					return true
+				}
+				var conds []string
+				for _, a := range pe.enclosingCondsStrict(r.Decl.Body, at) {
+					if strings.Contains(a, "res.") || strings.Contains(a, "res)") {
+						conds = append(conds, a)
+					}
+				}
+				sort.Strings(conds)
+				key := strings.Trim(kl.Value, "\"`")
+				if byKind[r.Kind] == nil {
+					byKind[r.Kind] = map[string]map[string]entry{}
+				}
+				if byKind[r.Kind][pr.proto] == nil {
+					byKind[r.Kind][pr.proto] = map[string]entry{}
+				}
+				byKind[r.Kind][pr.proto][key] = entry{strings.Join(conds, " ∧ "), at.Pos()}
+				return true
+			})
+		}
+	}
+	var kinds []string
+	for k := range byKind {
+		kinds = append(kinds, k)
+	}
+	sort.Strings(kinds)
+	n := 0
+	for _, kind := range kinds {
+		h, g := byKind[kind]["http"], byKind[kind]["grpc"]
+		keys := map[string]bool{}
+		for k := range h {
+			keys[k] = true
+		}
+		for k := range g {
+			keys[k] = true
+		}
+		var ks []string
+		for k := range keys {
+			ks = append(ks, k)
+		}
+		sort.Strings(ks)
+		for _, k := range ks {
+			he, hok := h[k]
+			ge, gok := g[k]
+			okey := fmt.Sprintf("keyed-entries-agree/%s/%s", kind, k)
+			switch {
+			case hok && !gok:
+				// a protocol may nest differently (typed message fields instead of keys): only
+				// keys that both file are compared, a one-sided key is reported only if the
+				// other side files sibling keys of the same map
+				if len(g) > 0 {
+					c.bad(okey, he.pos, fmt.Sprintf("%s: the HTTP reply files a sub-object under %q, the gRPC reply files none", kind, k))
+					n++
+				}
+			case gok && !hok:
+				if len(h) > 0 {
+					c.bad(okey, ge.pos, fmt.Sprintf("%s: the gRPC reply files a sub-object under %q, the HTTP reply files none", kind, k))
+					n++
+				}
+			default:
+				n++
+				c.check(he.conds == ge.conds, okey, ge.pos, "filed under the same conditions on the kernel's outcome in both protocols: "+he.conds,
+					fmt.Sprintf("%s: the entry %q is rendered when [%s] over HTTP but when [%s] over gRPC: the two protocols give different accounts of the same kernel outcome", kind, k, he.conds, ge.conds))
+			}
+		}
+	}
+	c.count("keyed_entries_compared", n)
+	c.floor("keyed reply entries compared across protocols", n, 2)
+}
